@@ -169,17 +169,32 @@ Qed.
 
 (* ---- progress: in an ending, not yet returned state some library goroutine can step ---- *)
 Lemma sys_ne_connect s : step_connect s <> [] -> sys_next s <> [].
-Proof. unfold sys_next, sys_next_gen. intros H E. apply app_eq_nil in E. tauto. Qed.
+Proof. unfold sys_next, sys_next_gen, sys_core. intros H E. repeat (apply app_eq_nil in E; destruct E as [E ?]). tauto. Qed.
 Lemma sys_ne_exec s : step_exec s <> [] -> sys_next s <> [].
-Proof. unfold sys_next, sys_next_gen. intros H E. repeat (apply app_eq_nil in E; destruct E as [? E]); tauto. Qed.
+Proof.
+  unfold sys_next, sys_next_gen, sys_core. intros H E. apply app_eq_nil in E. destruct E as [E _].
+  repeat (apply app_eq_nil in E; destruct E as [? E]); tauto.
+Qed.
 Lemma sys_ne_read s : step_read s <> [] -> sys_next s <> [].
-Proof. unfold sys_next, sys_next_gen. intros H E. repeat (apply app_eq_nil in E; destruct E as [? E]); tauto. Qed.
+Proof.
+  unfold sys_next, sys_next_gen, sys_core. intros H E. apply app_eq_nil in E. destruct E as [E _].
+  repeat (apply app_eq_nil in E; destruct E as [? E]); tauto.
+Qed.
 Lemma sys_ne_send s : step_send s <> [] -> sys_next s <> [].
-Proof. unfold sys_next, sys_next_gen. intros H E. repeat (apply app_eq_nil in E; destruct E as [? E]); tauto. Qed.
+Proof.
+  unfold sys_next, sys_next_gen, sys_core. intros H E. apply app_eq_nil in E. destruct E as [E _].
+  repeat (apply app_eq_nil in E; destruct E as [? E]); tauto.
+Qed.
 Lemma sys_ne_ping s : step_ping s <> [] -> sys_next s <> [].
-Proof. unfold sys_next, sys_next_gen. intros H E. repeat (apply app_eq_nil in E; destruct E as [? E]); tauto. Qed.
+Proof.
+  unfold sys_next, sys_next_gen, sys_core. intros H E. apply app_eq_nil in E. destruct E as [E _].
+  repeat (apply app_eq_nil in E; destruct E as [? E]); tauto.
+Qed.
 Lemma sys_ne_app s : step_app s <> [] -> sys_next s <> [].
-Proof. unfold sys_next, sys_next_gen. intros H E. repeat (apply app_eq_nil in E; destruct E as [? E]); tauto. Qed.
+Proof.
+  unfold sys_next, sys_next_gen, sys_core. intros H E. apply app_eq_nil in E. destruct E as [E _].
+  repeat (apply app_eq_nil in E; destruct E as [? E]); tauto.
+Qed.
 
 Lemma connect_en s :
   match cpc s with CIdle => False | CWait => loops_done s = true | _ => True end -> step_connect s <> [].
